@@ -324,9 +324,16 @@ class BaseClientHandler:
 
             if self.server and imap_command.command:
                 self.server.num_failed_commands[imap_command.command] += 1
-            result = f"{imap_command.tag} BAD Unhandled exception: {e}"
+            # NOTE: Re-raising the exception ends this client's connection,
+            #       so tell the client that we are hanging up on it. (And
+            #       make sure the text of the exception stays on one line.)
+            #
+            reason = " ".join(str(e).split())
+            result = f"{imap_command.tag} BAD Unhandled exception: {reason}"
             try:
-                await self.client.push(result.strip() + "\r\n")
+                await self.client.push(
+                    "* BYE Internal server error\r\n", result + "\r\n"
+                )
             except Exception:
                 pass
             raise
